@@ -191,8 +191,6 @@ def c12(tier_):
     # is replayed on the 1-handle instance by C11 and here in the thorough tier
     lite = tier_ == 'quick'
     cfgs = [replay.mc_cfg(('d',), ('h1', 'h2'), lite=lite)]
-    if tier_ == 'thorough':
-        cfgs.append(replay.mc_cfg(('d',), ('h1', 'h2', 'h3'), lite=True, onein=6))      # model-checked in full; 1 in 6 of its 1.46 million transitions replayed
     cfgs.append(replay.mc_cfg(('d', 'ld'), ('h1',), lite=lite))
     execs, st, tr, uniq = [], 0, 0, 0
     apij = mk.api_json('exc')['cxx']
@@ -202,11 +200,21 @@ def c12(tier_):
         cx = replay.Concrete(rng, apij)
         execs += replay.build_executions(edges, walks, cx, 'exc', sweep_every=60, rng=rng)
         st += s; tr += t; uniq += nu
+    sim = None
+    if tier_ == 'thorough':
+        # three handles (reduced alphabet): 1.46 million transitions -- model-checked in full by TLC (no emission), and 600 random
+        # behaviours of 300 steps (TLC -simulate) replayed on the real library
+        cfg3 = replay.mc_cfg(('d',), ('h1', 'h2', 'h3'), lite=True)
+        s3, t3, _, _ = replay.explore(cfg3, 'exc', emit=False, timeout=3000)
+        e3, w3 = replay.explore_sim(cfg3, 'exc', num=600, depth=300)
+        execs += replay.build_executions(e3, w3, replay.Concrete(rng, apij), 'exc', sweep_every=60, rng=rng)
+        st += s3; tr += t3
+        sim = dict(three_handle_states=s3, three_handle_transitions=t3, simulated_behaviours=len(w3), simulated_transitions=len(e3))
     for i in range(20 if tier_ == 'quick' else 200):
         execs.append(gen.gen_registry_random(rng, steps=120 if tier_ == 'quick' else 300, apis=('cxx', 'c') if i % 2 else ('cxx',)))
     ind = apalache_inductive() if tier_ == 'thorough' else None
-    return run_trace_check('C12', tier_, execs, suite=True, relax=('live', 'memo'), level='model_checking', extra_cov=(dict(inductive_invariant_apalache=ind) if ind else None),
-        rule='every transition of the bounded registry model (2 handles; 2 precisions x 1 handle; quick: reduced alphabet Lite, thorough: full alphabet) replayed on the real library with a concretisation drawn by seed; thorough: additionally the 3-handle Lite instance, model-checked in full by TLC, a random 1 in 6 of its transitions replayed; plus random long histories over 4 similar handles and both precisions; distinct = distinct (call, arguments) shapes executed',
+    return run_trace_check('C12', tier_, execs, suite=True, relax=('live', 'memo'), level='model_checking', extra_cov=(dict(inductive_invariant_apalache=ind, three_handle_instance=sim) if ind else None),
+        rule='every transition of the bounded registry model (2 handles; 2 precisions x 1 handle; quick: reduced alphabet Lite, thorough: full alphabet) replayed on the real library with a concretisation drawn by seed; thorough: additionally the 3-handle Lite instance, model-checked in full by TLC, and 600 random behaviours of it (TLC -simulate, 300 steps each) replayed; plus random long histories over 4 similar handles and both precisions; distinct = distinct (call, arguments) shapes executed',
         assumptions=COMMON_ASSUME, mc=dict(states=st, transitions=tr, distinct_transitions_replayed=uniq, exhaustive=True))
 
 
